@@ -219,6 +219,26 @@ func init() {
 				}
 			}
 		}
+		// asymmetric family: a longer script (several watermarks in a row, retractions with later event times)
+		// against at most one event on the other input, in both roles
+		{
+			lo := jopts
+			lo.MaxLen = r.Pick(3, 4)
+			so := jopts
+			so.MaxLen = 1
+			long, short := stream.GenScripts(lo), stream.GenScripts(so)
+			for _, k := range joinKinds {
+				k := k
+				for _, l := range long {
+					if len(l) <= joinLen {
+						continue
+					}
+					for _, s := range short {
+						jjobs = append(jjobs, jjob{k.Name + "_join", buildJoin(k, 1), l, s}, jjob{k.Name + "_join", buildJoin(k, 1), s, l})
+					}
+				}
+			}
+		}
 		for _, k := range []joinKind{joinKinds[0], joinKinds[3]} {
 			k := k
 			for _, l := range js {
